@@ -66,8 +66,11 @@ Situations(p) ==
 C10Dst(p, sit) ==
   LET base == With(With(With(With(C10Src, p, sit), "x", Dir(493)), "x/f", Reg(7, 4, 999, 0, 420)), "y", Reg(8, 6, 999, 0, 420))
   IN IF p = "d" /\ sit.t # "dir" THEN With(base, "d/f", Absent) ELSE base
+(* ... and the same with the source directory "d" listed WITHOUT owner write permission (0555): after the    *)
+(* transfer the receiver restores such directories' modes in a separate pass - not in a dry run              *)
+C10SrcRo == With(C10Src, "d", Dir(365))
 C10Scn ==
-  { Scn(C10Dst(p, sit), ListOf(C10Src), O(TRUE, l, pp, t, D, c, FALSE, n, del), 0, {}) :
+  { Scn(C10Dst(p, sit), ListOf(src), O(TRUE, l, pp, t, D, c, FALSE, n, del), 0, {}) : src \in {C10Src, C10SrcRo},
       p \in {"d", "d/f", "f", "l", "s"} , sit \in UNION {Situations(q) : q \in {"d", "d/f", "f", "l", "s"}},
       l \in BOOLEAN, pp \in BOOLEAN, t \in BOOLEAN, D \in BOOLEAN, c \in BOOLEAN, n \in BOOLEAN, del \in BOOLEAN }
 C10Valid(s) == \E p \in {"d", "d/f", "f", "l", "s"} : \E sit \in Situations(p) : s.fs0 = C10Dst(p, sit)
@@ -126,7 +129,9 @@ C11Scn ==
 (* names at several depths, files and directories, every sort position       *)
 C13Src == With(With(With(With(With(With(With(With(With(EmptyFs, "ba", Reg(7, 17, 1000, 0, 420)), "a", Reg(1, 11, 1000, 0, 420)), "b", Reg(2, 12, 1000, 0, 420)), "c", Reg(3, 13, 1000, 0, 420)),
           "d", Dir(493)), "d/a", Reg(4, 14, 1000, 0, 420)), "d/b", Reg(5, 15, 1000, 0, 420)), "d/e", Dir(493)), "d/e/a", Reg(6, 16, 1000, 0, 420))
-C13RulePool == [inc : BOOLEAN, pat : {"a", "b", "d", "e"}]
+(* dir = TRUE: the rule is spelled with a trailing slash ("d/": directories named d); used only for names that *)
+(* are directories wherever they occur in this universe, so that it selects the same entries as the plain name *)
+C13RulePool == [inc : BOOLEAN, pat : {"a", "b", "d", "e"}, dir : {FALSE}] \cup [inc : BOOLEAN, pat : {"d", "e"}, dir : {TRUE}]
 CONSTANT MaxRules
 C13Rules == UNION {[1..k -> C13RulePool] : k \in 0..MaxRules}
 C13Scn == { E2E(C13Src, EmptyFs, OX(TRUE, FALSE, FALSE, TRUE, FALSE, FALSE, FALSE, FALSE, FALSE, FALSE), rs) : rs \in C13Rules }
@@ -139,7 +144,7 @@ C14Src == With(With(With(With(With(With(EmptyFs, "d", Dir(488)), "d/f", Reg(1, 2
 C14Dst == With(With(With(EmptyFs, "d", Dir(493)), "f", Reg(7, 30, 2000, 0, 420)), "z", Reg(8, 5, 500, 0, 420))
 C14Scn == { E2E(C14Src, C14Dst, OG(OX(TRUE, l, p, t, dv, sp, c, I, n, del), og, gg), rs) :
               l \in BOOLEAN, p \in BOOLEAN, t \in BOOLEAN, dv \in BOOLEAN, sp \in BOOLEAN, c \in BOOLEAN, I \in BOOLEAN, n \in BOOLEAN,
-              del \in BOOLEAN, og \in BOOLEAN, gg \in BOOLEAN, rs \in {<<>>, <<[inc |-> FALSE, pat |-> "f"]>>} }
+              del \in BOOLEAN, og \in BOOLEAN, gg \in BOOLEAN, rs \in {<<>>, <<[inc |-> FALSE, pat |-> "f", dir |-> FALSE]>>} }
 
 (* =================================================================== C01 *)
 (* Universe = <<".", "a", "b", "d", "d/a">>: every prior destination state of *)
@@ -165,8 +170,8 @@ RsDst(k) == CASE k = 1 -> EmptyFs
               [] k = 2 -> C01Src
               [] k = 3 -> With(With(C01Src, "a", Reg(9, 40, 900, 0, 420)), "d/a", Reg(9, 53, 1000, 0, 420))
               [] k = 4 -> With(With(With(EmptyFs, "b", Reg(8, 6, 999, 0, 420)), "d", Reg(9, 5, 900, 0, 420)), "a", C01Src["a"])
-RsRules == { <<>>, <<[inc |-> FALSE, pat |-> "a"]>>, <<[inc |-> FALSE, pat |-> "d"]>>,
-             <<[inc |-> TRUE, pat |-> "a"], [inc |-> FALSE, pat |-> "a"], [inc |-> FALSE, pat |-> "b"]>> }
+RsRules == { <<>>, <<[inc |-> FALSE, pat |-> "a", dir |-> FALSE]>>, <<[inc |-> FALSE, pat |-> "d", dir |-> TRUE]>>,
+             <<[inc |-> TRUE, pat |-> "a", dir |-> FALSE], [inc |-> FALSE, pat |-> "a", dir |-> FALSE], [inc |-> FALSE, pat |-> "b", dir |-> FALSE]>> }
 RsScn == { E2E(RsSrc(wb), RsDst(k), OX(TRUE, FALSE, FALSE, t, FALSE, FALSE, FALSE, FALSE, n, del), rs) :
              wb \in BOOLEAN, k \in 1..4, t \in BOOLEAN, n \in BOOLEAN, del \in BOOLEAN, rs \in RsRules }
 
